@@ -580,16 +580,20 @@ func LoadExtElements(cfgPath string) error {
 		return err
 	}
 
-	InfoModel = make(map[ElementKey]InfoElementEntry)
+	// the decoders of the listeners that are already running read InfoModel: the
+	// new model is filled on the side and published complete
+	model := make(map[ElementKey]InfoElementEntry)
 
 	for PEN, elements := range ipfixElements {
 		for elementID, prop := range elements {
 			if len(prop) > 1 {
-				InfoModel[ElementKey{PEN, elementID}] =
+				model[ElementKey{PEN, elementID}] =
 					InfoElementEntry{FieldID: elementID, Name: prop[0], Type: FieldTypes[prop[1]]}
 			}
 		}
 	}
+
+	InfoModel = model
 
 	return nil
 }
